@@ -79,6 +79,7 @@ class Fn(object):
         self.sum_depth = 0       # > 0: inside a loop of the "early return" encoding (R + state)
         self.loops = []          # pack functions of the enclosing loops of that encoding
         self.gen_sg = False      # a generator that also returns the storage
+        self.tnode_storage = "sgt"   # the storage LRUTrieNode.write goes to (add_links: the trie storage next to the link storage)
         self.rcoq = None         # Coq type of the function's result (needed by that encoding)
 
     # ---------- helpers ----------
@@ -525,7 +526,8 @@ class Fn(object):
             raise Unsupported("value of the effectful method %s" % name)
         if ot == "tnode" and name == "write" and not c.args and not c.keywords:
             # LRUTrieNode.write of GenNode.v on the trie storage
-            return "(let '(%s, sgt) := py_node_write %s sgt in\n %s)" % (ov, ov, nxt())
+            st = self.tnode_storage
+            return "(let '(%s, %s) := py_node_write %s %s in\n %s)" % (ov, st, ov, st, nxt())
 
         def emit(args):
             call = "%s %s%s%s" % (sig["coq"], ov, " sg" if sig["kind"].startswith("io") else "", "".join(" " + x for x in args))
